@@ -125,6 +125,9 @@ pub enum How {
     /// (the call abandoned) if it has not returned after the given time
     TellC(Ms),
     AskC(Ms),
+    /// ask_with_timeout(t) issued by a *busy caller*: the future is polled once, then not polled
+    /// at all for `late` ms (its wake-ups are ignored), then awaited
+    AskTL(Ms, Ms),
     // real-thread engine only:
     BTell(Option<Ms>),
     BAsk(Option<Ms>),
@@ -142,7 +145,7 @@ impl How {
     }
     pub fn timeout(&self) -> Option<Ms> {
         match self {
-            How::TellT(t) | How::AskT(t) => Some(*t),
+            How::TellT(t) | How::AskT(t) | How::AskTL(t, _) => Some(*t),
             How::BTell(t) | How::BAsk(t) => *t,
             _ => None,
         }
@@ -151,6 +154,13 @@ impl How {
     pub fn cancel_after(&self) -> Option<Ms> {
         match self {
             How::TellC(t) | How::AskC(t) => Some(*t),
+            _ => None,
+        }
+    }
+    /// how long a busy caller leaves the call un-polled after its first poll
+    pub fn late(&self) -> Option<Ms> {
+        match self {
+            How::AskTL(_, l) => Some(*l),
             _ => None,
         }
     }
@@ -310,7 +320,7 @@ impl Scenario {
                 .map(|s| match s {
                     Step::Sleep(ms) => *ms as u64,
                     Step::Send { how, msg, .. } => {
-                        how.timeout().or(how.cancel_after()).map(|t| (t as u64).min(200)).unwrap_or(0) + msg_cost(msg)
+                        how.timeout().or(how.cancel_after()).map(|t| (t as u64).min(200)).unwrap_or(0) + how.late().unwrap_or(0) as u64 + msg_cost(msg)
                     }
                     _ => 0,
                 })
@@ -330,7 +340,7 @@ impl Scenario {
             for o in &c.ops {
                 total += o.delay as u64;
                 if let Op::Send { how, msg, .. } = &o.op {
-                    total += how.timeout().or(how.cancel_after()).map(|t| (t as u64).min(200)).unwrap_or(0);
+                    total += how.timeout().or(how.cancel_after()).map(|t| (t as u64).min(200)).unwrap_or(0) + how.late().unwrap_or(0) as u64;
                     total += msg_cost(msg);
                 }
             }
